@@ -23,7 +23,7 @@ GRunOne ==
     /\ batch > 0
     /\ \E f \in Faults, o \in ConnOuts, g \in Gaps :
          LET cb == Head(ready)
-             X == Callback(X0(s), cb, f, o, g)
+             X == Callback(X0(s), cb, f, o, g, K0)
              c == IF cb.k = "wake" THEN cb.c ELSE 1
          IN /\ X.uf \/ f = F0
             /\ X.uo \/ o = O0
